@@ -2,9 +2,12 @@ package checks
 
 import (
 	"context"
+	"errors"
 	"fmt"
+	"net/http"
 	"strings"
 	"sync"
+	"sync/atomic"
 
 	connect "github.com/bufbuild/connect-go"
 	"verif.local/harness/ev"
@@ -318,7 +321,7 @@ func sortPhases(log []string, phases []string) []string {
 
 func c16(run *ev.Run) int {
 	maxN := run.Pick(4, 6)
-	run.SetRule(fmt.Sprintf("cases = all interceptor lists up to length %d with nil at any position x all 2^(n-1) compositions into consecutive WithInterceptors groups x nesting of each group in {plain, WithOptions, WithClientOptions/WithHandlerOptions, two levels} (all nestings for <=2 groups, seeded sample above) x empty groups x a foreign interceptor in a group of its own after the first group (the groups are sub-slices of one backing array) x all-in-one outer wrapper (side-specific, or one WithOptions holding plain and nested groups side by side); the same option values build the clients and handlers of all 4 kinds (applied 4 times); one real call per kind through the loopback; also UnaryInterceptorFunc entries (even ids); layered option sets with 2-3 leaves sharing a parent; history: one WithInterceptors value in 2-3 option lists; oracle: per-phase event log == log predicted from the flat declaration-order list, every id exactly once per phase; distinct by (list pattern, grouping, nesting class, kind, side)", maxN))
+	run.SetRule(fmt.Sprintf("cases = all interceptor lists up to length %d with nil at any position x all 2^(n-1) compositions into consecutive WithInterceptors groups x nesting of each group in {plain, WithOptions, WithClientOptions/WithHandlerOptions, two levels} (all nestings for <=2 groups, seeded sample above) x empty groups x a foreign interceptor in a group of its own after the first group (the groups are sub-slices of one backing array) x all-in-one outer wrapper (side-specific, or one WithOptions holding plain and nested groups side by side); the same option values build the clients and handlers of all 4 kinds (applied 4 times); one real call per kind through the loopback; also UnaryInterceptorFunc entries (even ids); layered option sets with 2-3 leaves sharing a parent; history: one WithInterceptors value in 2-3 option lists; WithRecover at every position among 1-3 interceptors with a panicking handler (interceptors before it see the recovered error returned, those after it see the panic unwind); oracle: per-phase event log == log predicted from the flat declaration-order list, every id exactly once per phase; distinct by (list pattern, grouping, nesting class, kind, side)", maxN))
 	var shapes []c16Shape
 	r := run.Rand("c16-shapes")
 	for n := 0; n <= maxN; n++ {
@@ -400,6 +403,7 @@ func c16(run *ev.Run) int {
 	})
 	c16Layered(run)
 	c16SharedValue(run)
+	c16WithRecover(run)
 	return run.Finish("calls", "phases.compared")
 }
 
@@ -678,6 +682,118 @@ func c16SharedValue(run *ev.Run) {
 								break
 							}
 						}
+					}
+				}
+			}
+		}
+	}
+}
+
+// unwindIcept notes how control came back through it: next returned (with
+// which error code) or a panic unwound through it.
+type unwindIcept struct {
+	id  int
+	log *c16Log
+}
+
+func (i *unwindIcept) out(returned *bool, err *error) {
+	switch {
+	case !*returned:
+		i.log.add(fmt.Sprintf("%d:unwound", i.id))
+	case *err != nil:
+		i.log.add(fmt.Sprintf("%d:returned:%v", i.id, connect.CodeOf(*err)))
+	default:
+		i.log.add(fmt.Sprintf("%d:returned:ok", i.id))
+	}
+}
+func (i *unwindIcept) WrapUnary(next connect.UnaryFunc) connect.UnaryFunc {
+	return func(ctx context.Context, req connect.AnyRequest) (res connect.AnyResponse, err error) {
+		returned := false
+		defer i.out(&returned, &err)
+		res, err = next(ctx, req)
+		returned = true
+		return res, err
+	}
+}
+func (i *unwindIcept) WrapStreamingClient(next connect.StreamingClientFunc) connect.StreamingClientFunc {
+	return next
+}
+func (i *unwindIcept) WrapStreamingHandler(next connect.StreamingHandlerFunc) connect.StreamingHandlerFunc {
+	return func(ctx context.Context, conn connect.StreamingHandlerConn) (err error) {
+		returned := false
+		defer i.out(&returned, &err)
+		err = next(ctx, conn)
+		returned = true
+		return err
+	}
+}
+
+// c16WithRecover: WithRecover installs an interceptor and so takes its slot in
+// declaration order like any other. With a handler that panics the slot is
+// observable: interceptors declared before it see the recovered error come
+// back as an ordinary result, those declared after it see the panic unwind.
+func c16WithRecover(run *ev.Run) {
+	for k := 1; k <= 3; k++ {
+		for p := 0; p <= k; p++ {
+			for _, grouping := range []string{"flat", "one-WithHandlerOptions", "interceptors-in-WithOptions"} {
+				key := fmt.Sprintf("c16/with-recover/k=%d/recover-at=%d/%s", k, p, grouping)
+				if !run.Want(key) {
+					continue
+				}
+				log := &c16Log{}
+				var recovered int32
+				rc := connect.WithRecover(func(context.Context, connect.Spec, http.Header, any) error {
+					atomic.AddInt32(&recovered, 1)
+					return connect.NewError(connect.CodeDataLoss, errors.New("recovered"))
+				})
+				var hopts []connect.HandlerOption
+				var want []string
+				for i := 0; i <= k; i++ {
+					if i == p {
+						hopts = append(hopts, rc)
+						continue
+					}
+					id := i
+					if i > p {
+						id = i - 1
+					}
+					var o connect.Option = connect.WithInterceptors(&unwindIcept{id: id, log: log})
+					if grouping == "interceptors-in-WithOptions" {
+						o = connect.WithOptions(o)
+					}
+					hopts = append(hopts, o)
+				}
+				// control comes back innermost first
+				for id := k - 1; id >= 0; id-- {
+					if id >= p {
+						want = append(want, fmt.Sprintf("%d:unwound", id))
+					} else {
+						want = append(want, fmt.Sprintf("%d:returned:data_loss", id))
+					}
+				}
+				if grouping == "one-WithHandlerOptions" {
+					hopts = []connect.HandlerOption{connect.WithHandlerOptions(hopts...)}
+				}
+				reg := svc.NewRegistry()
+				hs := svc.Handlers(reg, hopts...)
+				cs := svc.NewClientSet(&wire.Loopback{Handler: svc.Mux(hs)}, "http://verif.local")
+				for _, kind := range []svc.Kind{svc.Unary, svc.ServerStream, svc.ClientStream} {
+					atomic.StoreInt32(&recovered, 0)
+					call := reg.New("c16r", &svc.Program{Steps: []svc.Step{{Op: "recv"}, {Op: "panic", Val: "boom"}}})
+					cl := cs.Do(context.Background(), kind, call.ID, nil, []*gen.Msg{{Id: 1}})
+					reg.Drop(call)
+					got := log.take()
+					run.Count("calls", 1)
+					run.Count("recover_slot.compared", 1)
+					run.Eval(fmt.Sprintf("with-recover|k=%d|p=%d|%s|%s", k, p, grouping, kind))
+					detail := map[string]any{"interceptors": k, "recover_declared_at": p, "grouping": grouping, "kind": kind.String(), "observed": got, "expected": want, "client_err": errStr(cl.Err), "recovery_calls": atomic.LoadInt32(&recovered)}
+					if fmt.Sprint(got) != fmt.Sprint(want) {
+						run.Violation(key+"/"+kind.String()+"/slot", fmt.Sprintf("with WithRecover declared at position %d of %d, control came back through the other interceptors as %v; declaration order predicts %v", p, k+1, got, want), detail)
+						break
+					}
+					if n := atomic.LoadInt32(&recovered); n != 1 || connect.CodeOf(cl.Err) != connect.CodeDataLoss {
+						run.Violation(key+"/"+kind.String()+"/outcome", fmt.Sprintf("recovery function ran %d times and the client saw %q (want once, data_loss)", n, errStr(cl.Err)), detail)
+						break
 					}
 				}
 			}
